@@ -15,6 +15,7 @@ import (
 	"github.com/resonatehq/resonate/internal/kernel/t_aio"
 	"github.com/resonatehq/resonate/internal/kernel/t_api"
 	"github.com/resonatehq/resonate/internal/util"
+	"github.com/resonatehq/resonate/internal/verifhook"
 )
 
 type Config struct {
@@ -90,9 +91,11 @@ func (s *System) Loop() error {
 	for {
 		// tick first
 		s.Tick(time.Now().UnixMilli())
+		verifhook.Point("system.loop.afterTick")
 
 		// complete shutdown if done
 		if s.Done() {
+			verifhook.Point("system.loop.afterDone")
 			s.aio.Shutdown()
 			s.scheduler.Shutdown()
 			return nil
